@@ -7,7 +7,10 @@
 (* Every event must be the corresponding effect of Submission.tla on the   *)
 (* shared state (RequestKind, SetResultSCT, Sweep are the operators the    *)
 (* goroutine-level specification uses), and the returned verdict must be   *)
-(* sound and honest with respect to the state reached.                     *)
+(* sound and honest with respect to the state reached.  Reset carries what *)
+(* each log was scripted to answer (the outcome variable of the            *)
+(* specification): a result may only be set with an SCT for a log whose    *)
+(* outcome is an SCT (ErrorWins, NothingIsNoSCT).                          *)
 (***************************************************************************)
 EXTENDS Submission, Json, IOUtils
 
@@ -25,6 +28,9 @@ SnapResults(e) == [x \in Logs |-> IF x \in DOMAIN e.results THEN e.results[x] EL
 Proj(r) == [x \in Logs |-> IF r[x] = "dropped" THEN "pending" ELSE r[x]]
 SnapCancellable(e) == {e.cancellable[i] : i \in 1..Len(e.cancellable)}
 Cancellable(c) == {x \in Logs : c[x]}
+\* the hook prints a stored (nil, nil) pair like the placeholder of a request in flight
+SnapMatches(e, r) == \A x \in Logs : \/ SnapResults(e)[x] = Proj(r)[x]
+                                      \/ (outcome[x] = "neither" /\ r[x] = "err" /\ SnapResults(e)[x] = "pending")
 
 TraceInit ==
   /\ l = 1
@@ -34,16 +40,17 @@ TraceInit ==
   /\ cancelled = [x \in Logs |-> FALSE] /\ done = [x \in Logs |-> FALSE]
   /\ pc = [p \in Pairs |-> "timer"] /\ collected = [g \in Groups |-> 0] /\ gstate = [g \in Groups |-> "running"]
   /\ consumed = {} /\ gcomplete = [g \in Groups |-> FALSE] /\ ret = NoRet /\ ctxDone = FALSE
-  /\ submits = [x \in Logs |-> 0] /\ outcome = [x \in Logs |-> "sct"]
+  /\ submits = [x \in Logs |-> 0] /\ outcome = [x \in Logs |-> "sct"] /\ sess = [g \in Groups |-> Members[g]]
   /\ TLCSet(1, 1)
 
-Frame == UNCHANGED <<cancelled, done, pc, collected, gstate, consumed, gcomplete, ret, ctxDone, submits, outcome>>
+Frame == UNCHANGED <<cancelled, done, pc, collected, gstate, consumed, gcomplete, ret, ctxDone, submits, sess>>
 
 TraceReset ==
   /\ Ev("Reset")
   /\ needs' = [g \in Groups |-> Min[g]]
   /\ results' = [x \in Logs |-> "none"]
   /\ cancels' = [x \in Logs |-> FALSE]
+  /\ outcome' = [x \in Logs |-> IF "outcome" \in DOMAIN Trace[l] /\ x \in DOMAIN Trace[l].outcome THEN Trace[l].outcome[x] ELSE "sct"]
   /\ l' = l + 1 /\ Frame
 
 TraceRequest ==
@@ -53,13 +60,14 @@ TraceRequest ==
      /\ results' = IF k = "dup" THEN results ELSE [results EXCEPT ![e.log] = "pending"]
      /\ cancels' = IF k = "first" THEN [cancels EXCEPT ![e.log] = TRUE] ELSE cancels
      /\ UNCHANGED needs
-     /\ SnapNeeds(e) = needs /\ SnapResults(e) = Proj(results') /\ SnapCancellable(e) = Cancellable(cancels')
-  /\ l' = l + 1 /\ Frame
+     /\ SnapNeeds(e) = needs /\ SnapMatches(e, results') /\ SnapCancellable(e) = Cancellable(cancels')
+  /\ l' = l + 1 /\ Frame /\ UNCHANGED outcome
 
 TraceSetResult ==
   /\ Ev("setResult")
   /\ LET e == Trace[l] IN
      /\ results[e.log] = "pending"                   \* a result is only set for a log that was requested, once
+     /\ (e.flag => IsSCT(outcome[e.log]))            \* only an outcome without error is an SCT
      /\ IF ~e.flag
         THEN /\ results' = [results EXCEPT ![e.log] = "err"]
              /\ UNCHANGED <<needs, cancels>>
@@ -67,14 +75,14 @@ TraceSetResult ==
              /\ needs' = r.needs
              /\ results' = [results EXCEPT ![e.log] = IF r.stored THEN "sct" ELSE "dropped"]
              /\ cancels' = Sweep(r.needs, cancels)
-     /\ SnapNeeds(e) = needs' /\ SnapResults(e) = Proj(results') /\ SnapCancellable(e) = Cancellable(cancels')
-  /\ l' = l + 1 /\ Frame
+     /\ SnapNeeds(e) = needs' /\ SnapMatches(e, results') /\ SnapCancellable(e) = Cancellable(cancels')
+  /\ l' = l + 1 /\ Frame /\ UNCHANGED outcome
 
 \* groupComplete() and collectSCTs() only read
 TraceRead ==
   /\ l <= Len(Trace) /\ Trace[l].ev \in {"groupComplete", "collect"}
-  /\ LET e == Trace[l] IN SnapNeeds(e) = needs /\ SnapResults(e) = Proj(results)
-  /\ l' = l + 1 /\ UNCHANGED <<needs, results, cancels>> /\ Frame
+  /\ LET e == Trace[l] IN SnapNeeds(e) = needs /\ SnapMatches(e, results)
+  /\ l' = l + 1 /\ UNCHANGED <<needs, results, cancels, outcome>> /\ Frame
 
 \* what GetSCTs returned, judged against the state reached
 TraceReturn ==
@@ -84,7 +92,8 @@ TraceReturn ==
      IN /\ got = SCTs                                                  \* exactly the SCTs that were kept, one per log
         /\ (~e.err => Satisfies(got))                                  \* success is sound
         /\ ((e.err /\ ~e.cancelled) => ~Satisfies(got))                \* failure is honest
-  /\ l' = l + 1 /\ UNCHANGED <<needs, results, cancels>> /\ Frame
+        /\ got \subseteq Answering                                     \* only logs that answered with an SCT are in it
+  /\ l' = l + 1 /\ UNCHANGED <<needs, results, cancels, outcome>> /\ Frame
 
 TraceNext == TraceReset \/ TraceRequest \/ TraceSetResult \/ TraceRead \/ TraceReturn
 
@@ -97,4 +106,5 @@ TraceAccepted ==
 
 \* invariants of Submission.tla that speak about the shared state only
 TraceNeedsAccount == NeedsAccount
+TraceOnlyAnswers == \A x \in Logs : results[x] \in {"sct", "dropped"} => IsSCT(outcome[x])
 =============================================================================
